@@ -186,5 +186,15 @@ kf("KF-window-extent-unchecked", ["C03"],
    "frontend/boundscheck.CheckBounds.translate_eff (window accesses are translated to the base buffer)",
    {"kind": ["oob"], "family": ["FE2", "FE1"], "detail": RE(r"^(read|write) [wv]\[")},
    "w = x[0:n - 1]; w[n - 1] = 1.0 with x: f32[n]")
+for _ins, _what in [
+    ("avx2_mask_storeu_ps", "mask is built with _mm256_set1_epi8((1<<N)-1): the sign bit of every 32-bit lane is 0 for N < 8, so nothing is stored"),
+    ("mm512_mask_fmadd_ps", "uses the `mask` (not `mask3`) form: lanes >= N receive A instead of keeping C"),
+    ("mm512_mask_set1_ps", "ignores its mask: all 16 lanes are set"),
+    ("mm512_maskz_loadu_ps", "zeroes lanes >= N, the Exo body leaves them unchanged"),
+    ("mm256_prefix_load_ps", "maskload zeroes lanes >= bound, the Exo body leaves them unchanged"),
+    ("avx2_fmadd_memu_ps", "the fragment declares locals `dst` and `ones`; an operand buffer with that name is captured (`__m256 dst = _mm256_loadu_ps(&dst[...])`)"),
+    ("mm256_fmadd_ps_broadcast", "passes the scalar rhs[0] where _mm256_fmadd_ps expects a __m256: the expansion does not compile"),
+]:
+    kf(f"KF-x86-{_ins}", ["C14"], f"x86 instruction {_ins}: {_what}", "platforms/x86.py", {"instr": _ins}, f"wrapper w_{_ins}_0 generated by vf/checks/c14.py")
 json.dump({"findings": F}, open(os.path.join(HERE, "known_findings.json"), "w"), indent=1)
 print(len(F), "entries")
